@@ -1268,7 +1268,11 @@ public:
     *  @param unflat the DataUnflattener we will read our string from (as a NUL-terminated ASCII string)
     *  @return B_NO_ERROR on success, or another value on failure.
     */
-   status_t Unflatten(DataUnflattener & unflat) {return SetCstr(unflat.ReadCString());}
+   status_t Unflatten(DataUnflattener & unflat)
+   {
+      const char * s = unflat.ReadCString();
+      return s ? SetCstr(s) : (unflat.GetStatus() | B_BAD_DATA);  // ReadCString() returns NULL if there was no NUL-terminated string to read
+   }
 
    /** Makes sure that we have pre-allocated enough space for a NUL-terminated string
     *  at least (numChars) bytes long (not including the NUL byte).
